@@ -5,7 +5,10 @@ From Coq Require Import Reals ZArith.
 From Coquelicot Require Import Coquelicot.
 From GMGP Require Import InputFnDefs InputFnProofs InputFnTactics InputFnClosed
   InputFnPde_CartesianR2 InputFnPde_CartesianR6 InputFnPde_PolarR6.
-From GMGPGen Require Import InputFunctionsGen.
+From GMGPGen Require Import InputFunctionsGen SelectGen.
+From GMGP Require Import SelectDefs SelectProofs.
+From Coq Require Import List String.
+Import ListNotations.
 Local Open Scope R_scope.
 
 (* ---- the symbolic derivative used in all statements below is the partial derivative ---- *)
@@ -161,3 +164,20 @@ Theorem C19_source_PolarR6_ZoniShiftedGyro_CircularGeometry : forall env, env 2%
   eval env gen_PolarR6_ZoniShiftedGyro_CircularGeometry_rhs_f =
   eval env (pde InputFnPde_PolarR6.geo_circular gen_ZoniShiftedGyroCoefficients_alpha gen_ZoniShiftedGyroCoefficients_beta gen_PolarR6_CircularGeometry_exact_solution).
 Proof. exact pde_PolarR6_ZoniShiftedGyro_CircularGeometry. Qed.
+
+(* ---- the selection tables (src/GMGPolar/select_test_case.cpp, regenerated by translator T11 as gen_select_table) ----
+   Every combination of the four option enumerations that selectTestCase accepts selects five classes that carry the names of
+   ONE (problem, profile, geometry) triple -- the triple the per-class theorems above are stated for -- and passes the
+   geometry parameters in the declared order.  Finite domain (4 x 4 x 4 x 2 combinations): checked by computation on the
+   regenerated table and lifted by forallb_forall. *)
+Theorem C19_selected_tuple_consistent : forall g p a b s,
+  In ((g, p, a, b), Some s) gen_select_table -> s = expected g p a b.
+Proof. exact select_consistent. Qed.
+Theorem C19_selection_table_complete : map fst gen_select_table = all_combinations.
+Proof. exact select_covers_all_combinations. Qed.
+Theorem C19_selection_enumerators :
+  gen_enum_geometry = [("CIRCULAR", 0%Z); ("SHAFRANOV", 1%Z); ("CZARNY", 2%Z); ("CULHAM", 3%Z)]%string%list /\
+  gen_enum_problem = [("CARTESIAN_R2", 0%Z); ("CARTESIAN_R6", 1%Z); ("POLAR_R6", 2%Z); ("REFINED_RADIUS", 3%Z)]%string%list /\
+  gen_enum_alpha = [("POISSON", 0%Z); ("SONNENDRUCKER", 1%Z); ("ZONI", 2%Z); ("ZONI_SHIFTED", 3%Z)]%string%list /\
+  gen_enum_beta = [("ZERO", 0%Z); ("ALPHA_INVERSE", 1%Z)]%string%list.
+Proof. exact select_enumerators. Qed.
